@@ -49,6 +49,12 @@ def annotate(case, impl_lines):
         done = {t[5:] for t in toks if t.startswith("done:")}
         if fs[0] == "tok" and pending and not (pending & done):
             op = "tok hold"
+        elif fs[0] == "tok" and pending and toks[:1] == ["ok"]:
+            # the blocked Clear/Close completed: which ungated items the applier still processed itself before it took
+            # the stop signal (Go's select) shows in the tombstones it applied: OnExit without OnEvict/OnReject
+            ev = {t.split(":")[3] for t in toks if t.startswith("evict:") or t.startswith("reject:")}
+            ex = sorted({t[5:] for t in toks if t.startswith("exit:")} - ev)
+            op = "tok sel " + (",".join(ex) if ex else "-")
         if fs[0] == "closeset" and toks[:1] != ["blocked"]:
             op = op + " pass"      # the restarted applier took the stop signal before the buffered item (Go's select)
         if fs[0] == "sweeprw":
